@@ -239,18 +239,21 @@ def wigBytesCase (c : Case) : List String :=
       (nameBytes n, ((sizes.find? (·.1 == n)).map (·.2)).getD 0, xs)
   match zs, input with
   | some z, some inp =>
-    if c.opt "compress" "0" != "0" then ["BYTES na"] else
+    let blobs : BW.Blobs := if c.opt "compress" "0" != "0" then
+        some ((c.records "DEFL").map fun l => (unhex (l.getD 1 "-"), unhex (l.getD 2 "-"))) else none
     let sorted := (z.toArray.qsort (· < ·)).toList.take 10
-    let bytes := BW.writeBigWig ⟨nat (c.opt "ips" "1024"), nat (c.opt "bs" "256"), sorted⟩ inp
+    let (bytes, zok) := BW.writeBigWigZ ⟨nat (c.opt "ips" "1024"), nat (c.opt "bs" "256"), sorted⟩ blobs inp
+    if !zok then ["BYTES blocks-do-not-inflate-to-the-model-sections"] else
+    let ubs := (bytes.drop 52).headD 0 + 256 * ((bytes.drop 53).headD 0 + 256 * ((bytes.drop 54).headD 0 + 256 * (bytes.drop 55).headD 0))
     -- the theorem-carrying model `BBI.fileOf` (subject of `wig_model_roundtrip`) with the zoom / summary areas of
     -- these bytes must reproduce them exactly: then the round-trip theorem speaks about this very file
     let cs : List BBI.ChromIn := inp.map fun ch => ⟨ch.1, ch.2.1, ch.2.2.map fun x => ⟨x.s, x.e, BW.floatBits 8 23 x.v⟩⟩
     let zc := (bytes.drop 6).headD 0 + 256 * (bytes.drop 7).headD 0
     let mk (tail : List Nat) : BBI.WOpts :=
-      ⟨nat (c.opt "ips" "1024"), nat (c.opt "bs" "256"), zc, 344, 304, 0, (bytes.drop 64).take 288, tail⟩
+      ⟨nat (c.opt "ips" "1024"), nat (c.opt "bs" "256"), zc, 344, 304, ubs, (bytes.drop 64).take 288, tail⟩
     let f0 := BBI.fileOf (mk []) cs
     let same := (BBI.fileOf (mk (bytes.drop f0.bytes.length)) cs).bytes == bytes
-    [s!"BYTES {bytes.length} {hex16 (fnv64 bytes)}", s!"FILEOF {if same then "eq" else "differs"}"] ++
+    [s!"BYTES {bytes.length} {hex16 (fnv64 bytes)}"] ++ (if blobs.isSome then [] else [s!"FILEOF {if same then "eq" else "differs"}"]) ++
       (if c.opt "dump" "0" == "1" then [s!"HEX {hex bytes}"] else [])
   | _, _ => ["BYTES na"]
 
@@ -267,11 +270,13 @@ def bedBytesCase (c : Case) : List String :=
   let autosql : List Nat := ((c.records "AUTOSQL").head?.map fun l => unhex (l.getD 1 "-")).getD BED3
   match zs with
   | some z =>
-    if c.opt "compress" "0" != "0" then ["BYTES na"] else
+    let blobs : BW.Blobs := if c.opt "compress" "0" != "0" then
+        some ((c.records "DEFL").map fun l => (unhex (l.getD 1 "-"), unhex (l.getD 2 "-"))) else none
     let sorted := (z.toArray.qsort (· < ·)).toList.take 10
     let input := runs.map fun (n, es) => (nameBytes n, ((sizes.find? (·.1 == n)).map (·.2)).getD 0, es)
-    let bytes := BW.writeBigBed ⟨nat (c.opt "ips" "1024"), nat (c.opt "bs" "256"), sorted⟩ autosql
+    let (bytes, zok) := BW.writeBigBedZ ⟨nat (c.opt "ips" "1024"), nat (c.opt "bs" "256"), sorted⟩ blobs autosql
       (ASN.fieldCount ASN.asciiCC true autosql) input
+    if !zok then ["BYTES blocks-do-not-inflate-to-the-model-sections"] else
     -- the theorem-carrying model `BBI.bedFileOf` (subject of `bed_model_roundtrip`) with the zoom directory / autoSql /
     -- summary / zoom areas of these bytes must reproduce them exactly
     let cs : List BBI.ChromBedIn := input.map fun ch => ⟨ch.1, ch.2.1, ch.2.2.map fun x => ⟨x.s, x.e, x.rest⟩⟩
@@ -283,7 +288,7 @@ def bedBytesCase (c : Case) : List String :=
        (bytes.drop 64).take midLen, tail⟩
     let f0 := BBI.bedFileOf (mk []) cs
     let same := (BBI.bedFileOf (mk (bytes.drop f0.bytes.length)) cs).bytes == bytes
-    [s!"BYTES {bytes.length} {hex16 (fnv64 bytes)}", s!"FILEOF {if same then "eq" else "differs"}"] ++
+    [s!"BYTES {bytes.length} {hex16 (fnv64 bytes)}"] ++ (if blobs.isSome then [] else [s!"FILEOF {if same then "eq" else "differs"}"]) ++
       (if c.opt "dump" "0" == "1" then [s!"HEX {hex bytes}"] else [])
   | none => ["BYTES na"]
 
